@@ -152,10 +152,14 @@ impl GenerationPass for AvailableValuePass {
 
                 // out[n] = gen[n] U (in[n] - kill[n]) U (callee_saved if n is entry)
                 let mut out_reg_n = node.reg_values_in();
-                out_reg_n -= node.kill_reg().iter();
+                let mut killed = node.kill_reg();
                 if node.calls_to().is_some() {
-                    out_reg_n -= Register::return_addr_set().iter();
+                    killed |= Register::return_addr_set();
                 }
+                out_reg_n -= killed.iter();
+                // A value written in terms of a register that this node
+                // overwrites no longer holds.
+                out_reg_n.forget_values_reading(&killed);
                 if let Some((reg, reg_value)) = node.gen_reg_value() {
                     out_reg_n.insert(reg, reg_value);
                 }
@@ -175,6 +179,7 @@ impl GenerationPass for AvailableValuePass {
                     AvailableValueMap::new()
                 } else {
                     let mut map = node.memory_values_in();
+                    map.forget_values_reading(&killed);
                     if let Some((MemoryLocation::StackOffset(offset), value)) =
                         node.gen_memory_value()
                     {
